@@ -1,5 +1,6 @@
-(* C05 shares the lifecycle entry points *)
+(* C05: lifecycle entry points, comparing the observables this property is about *)
+From Coq Require Import NArith.
 From AdltV Require Export Base.Obs Exec.Lifecycle.
 Definition case_C05 := case_LC.
-Definition agree_C05 := agree_LC.
+Definition agree_C05 := agree_LC_mode 5%N.
 Definition run_C05 := run_LC.
